@@ -192,7 +192,7 @@ def run_check(prop, tier, seed):
             "library_models_used": sorted(cov["models"]),
             "stubs": getattr(mod, "STUBS", []),
             "solver": "z3 %s (Python API, in-process, incremental); obligations it cannot decide are retried on a fresh "
-                      "non-incremental z3 solver and then on the /usr/bin/z3 4.8.12 binary; per-query timeout %d ms" % (
+                      "non-incremental z3 solver, then on the /usr/bin/cvc5 binary and then on the /usr/bin/z3 4.8.12 binary; per-query timeout %d ms" % (
                           __import__("z3").get_version_string(), opts.query_timeout_ms),
             "known_findings_reported": sorted(known_hit),
             "explanation": "states = feasible completed paths of the real code under symbolic inputs; "
